@@ -26,6 +26,7 @@ CASE_LIMIT = {"quick": 150, "thorough": 300}
 
 PROFILE = {"methods": ["MS", "SS", "DC"], "alg": 0.3, "intgs": ["rk", "expl_euler", "next"],
            "grids": ["uniform", "geometric", "function", "free", "uniform_loc", "geometric_loc", "density"],
+           "grid_minmax": True,
            "t0_kinds": ["num", "free", "free"], "T_kinds": ["free", "free", "num"],
            "N": [1, 2, 3, 4], "M": [1, 2, 3], "degrees": [1, 2, 3, 4], "quad_states": 0.0}
 
@@ -123,17 +124,10 @@ def run_case(case):
         if abs(tf - (ph["t0"] + ph["T"])) > 1e-9 * (1 + abs(tf)):
             res["violations"].append({"kind": "tf", "mech": "C11|tf-not-t0-plus-T",
                                       "detail": "value(ocp.tf)=%.12g, t0+T=%.12g" % (tf, ph["t0"] + ph["T"])})
-        if spec["T"]["kind"] == "free":
-            f, atoms = obsA.view.atoms(w)
-            found = [a for a in atoms if a[2] == -1 and a[0] == "ge" and abs(a[1] - ph["T"]) <= 1e-9 * (1 + abs(ph["T"]))]
-            res["evals"] += 1
-            if found:
-                res["counters"]["T_ge_0_rows"] += 1
-            else:
-                res["violations"].append({"kind": "no-T-ge-0", "mech": "C11|T>=0-row-missing",
-                                          "detail": "no NLP row with slack T=%.6g (T >= 0) at point %d" % (ph["T"], it)})
         if viol:
             break
+    if spec["T"]["kind"] == "free" and not res["violations"]:
+        t_lower_bound(spec, obsA, rng, res)
     g = spec["method"].get("grid") or {}
     unobservable = bool(g.get("localize_t0") and (g.get("localize_T") or g.get("cls") == "Free"))
     if res["violations"] or cls == "SS" or unobservable:
@@ -192,7 +186,7 @@ def run_case(case):
                               "e.g. %s vs %s" % (c, c0, len(un_a), len(un_b), C.short([A[i][1] for i in un_a][:4]),
                                                  C.short([B[i][1] for i in un_b][:4]))})
                 break
-            hor_eq = [a for a in atA if not (patA[a[4]] & trajA) and (a[0] == "eq" or a[1] < 0)]
+            hor_eq = [a for a in atA if not (patA[a[4]] & trajA) and a[0] == "eq"]
             if any(abs(a[1]) > 1e-7 * (1 + abs(c) + abs(c0)) for a in hor_eq):
                 res["violations"].append({"kind": "grid-rows-violated", "mech": "C11|horizon-only-equality-violated",
                                           "detail": "T=%g t0=%g: horizon/grid equality rows not satisfied at the "
@@ -203,3 +197,72 @@ def run_case(case):
     res["nontrivial"] = res["counters"]["reference_points"] > 0
     res["sample"] = {"spec": C.spec_digest(spec), "free": which, "twin_values": case["cvals"]}
     return res
+
+
+def t_lower_bound(spec, obs, rng, res):
+    """'plus T >= 0': the rows of the NLP that involve time-grid variables only must imply T >= 0
+    (linear programme over those rows: minimise T)."""
+    from scipy import optimize
+    from . import c06
+    view, rb = obs.view, obs.rb
+    cls = spec["method"]["cls"]
+    traj = C.state_columns(view, rb, ("xc:", "uc:", "vc:", "v:", "xi:", "xr:", "zr:") if cls == "DC" else
+                           (("xc:", "uc:", "vc:", "v:") if cls == "MS" else ("uc:", "vc:", "v:")))
+    hor = [s["name"] for s in spec["variables"] if s.get("role") == "horizon"]
+    if hor:
+        traj -= C.state_columns(view, rb, tuple("v:" + h for h in hor))
+    pattern = C.row_pattern(view)
+    used = set().union(*pattern) if pattern else set()
+    tdep = C.state_columns(view, rb, ("tc", "T", "t0"))
+    if cls == "SS":
+        # x0 columns are trajectory columns
+        import casadi as ca
+        N = spec["method"]["N"]
+        for n, e in zip(rb.names, rb.exprs):
+            if n.startswith("xc:"):
+                sp0 = ca.jacobian(ca.vec(e[:, :e.shape[1] // (N + 1)]), view.x).sparsity()
+                traj |= {c for c in range(sp0.size2()) if sp0.colind()[c + 1] > sp0.colind()[c]}
+    tcols = sorted((used | tdep) - traj)
+    rows = [r for r in range(view.ng) if pattern[r] and pattern[r] <= set(tcols)]
+    if not tcols:
+        return
+    _, _, lb, ub = view.eval(view.random_point(rng))
+    A, bvec, nonlin = (c06._linear_rows(view, rows, tcols, rng) if rows else (np.zeros((0, len(tcols))), np.zeros(0), 0.0))
+    if nonlin > 1e-8:
+        res["counters"]["T_lp_skipped_nonlinear"] = 1
+        return
+    # T as an affine function of the time variables
+    w0 = rng.standard_normal(view.nx)
+    T0 = rb(w0)["T"]
+    cvec = np.zeros(len(tcols))
+    for j, c in enumerate(tcols):
+        w = w0.copy()
+        w[c] += 1.0
+        cvec[j] = rb(w)["T"] - T0
+    const = T0 - cvec @ w0[tcols]
+    Aub, bub, Aeq, beq = [], [], [], []
+    for i, r in enumerate(rows):
+        if np.isfinite(lb[r]) and lb[r] == ub[r]:
+            Aeq.append(A[i])
+            beq.append(lb[r] - bvec[i])
+            continue
+        if np.isfinite(ub[r]):
+            Aub.append(A[i])
+            bub.append(ub[r] - bvec[i])
+        if np.isfinite(lb[r]):
+            Aub.append(-A[i])
+            bub.append(-(lb[r] - bvec[i]))
+    r = optimize.linprog(cvec, A_ub=np.array(Aub) if Aub else None, b_ub=np.array(bub) if Aub else None,
+                         A_eq=np.array(Aeq) if Aeq else None, b_eq=np.array(beq) if Aeq else None,
+                         bounds=[(-1e3, 1e3)] * len(tcols), method="highs")
+    res["evals"] += 1
+    res["counters"]["T_ge_0_rows"] += 1
+    if r.status == 0:
+        tmin = float(cvec @ r.x + const)
+        if tmin < -1e-7:
+            res["violations"].append({
+                "kind": "T-not-bounded-below", "mech": "C11|T>=0-not-enforced",
+                "detail": "the rows that involve time-grid variables only (%d rows) admit T = %.6g < 0" % (len(rows), tmin)})
+    elif r.status == 3:
+        res["violations"].append({"kind": "T-not-bounded-below", "mech": "C11|T>=0-not-enforced",
+                                  "detail": "T is unbounded below over the NLP's time-grid rows"})
